@@ -214,7 +214,7 @@ fn drops_balance() {
       {
          let mut m: HashMap<u8, Rc<()>> = HashMap::new();
          for _ in 0..40 {
-            let k = g.below(6) as u8;
+            let k = g.below(CAP.min(6) as u64) as u8;
             match g.below(8) {
                0 | 1 | 2 => {
                   m.insert(k, token.clone());
